@@ -242,7 +242,8 @@ func init() {
 			if !in.Branch(ok) {
 				return Tuple{z, in.NewError(in.tb.Str("parsing time: cannot parse"))}, true
 			}
-			z[1] = in.noteUF(in.tb.UF("time.parse.unix", BVSort(64), s)) // ext carries the unix seconds
+			z[1] = in.noteUF(in.tb.UF("time.parse.unix", BVSort(64), s))   // ext carries the unix seconds
+			z[0] = in.noteUF(in.tb.UF("time.parse.offset", BVSort(64), s)) // wall carries the zone offset (seconds east of UTC)
 			return Tuple{z, Iface{}}, true
 		}
 		e.Stubs["(time.Time).Unix"] = func(in *Interp, fn *ssa.Function, args []Value) (Value, bool) {
@@ -359,12 +360,43 @@ func init() {
 			z[1] = args[0] // ext carries the unix seconds
 			return z, true
 		}
+		// A time.Time is (instant, zone offset): ext = unix seconds, wall = offset east of UTC in seconds
+		// (0 for time.Unix / UTC()). Format renders the WALL CLOCK instant+offset and shows the offset only
+		// if the layout has a zone directive; for layouts that RFC 3339 parsing accepts, the rendered text
+		// parses back to (wall clock - shown offset): a literal "Z" on a non-UTC time therefore denotes a
+		// different instant, exactly as in the real library.
 		e.Stubs["(time.Time).UTC"] = func(in *Interp, fn *ssa.Function, args []Value) (Value, bool) {
-			return args[0], true
+			z := append(Struct(nil), args[0].(Struct)...)
+			z[0] = in.tb.BV(64, 0)
+			return z, true
 		}
 		e.Stubs["(time.Time).Format"] = func(in *Interp, fn *ssa.Function, args []Value) (Value, bool) {
-			sec := args[0].(Struct)[1].(*Term)
-			return in.noteUF(in.tb.UF("time.rfc3339", SortStr, sec)), true
+			tb := in.tb
+			t := args[0].(Struct)
+			sec, off := t[1].(*Term), t[0].(*Term)
+			lay := args[1].(*Term)
+			if off.IsConst() && off.U == 0 && lay.IsConst() && lay.S == "2006-01-02T15:04:05Z07:00" {
+				txt := in.noteUF(tb.UF("time.rfc3339", SortStr, sec))
+				in.assertPC(tb.And(tb.UF("time.parse.ok", SortBool, txt), tb.Eq(tb.UF("time.parse.unix", BVSort(64), txt), sec),
+					tb.Eq(tb.UF("time.parse.offset", BVSort(64), txt), tb.BV(64, 0))))
+				return txt, true
+			}
+			if !lay.IsConst() {
+				return in.noteUF(tb.UF("time.format.any", SortStr, sec, off, lay)), true
+			}
+			hasZone := strings.Contains(lay.S, "Z07") || strings.Contains(lay.S, "-07") || strings.Contains(lay.S, "MST")
+			wall := tb.BinBV("bvadd", sec, off)
+			shown := tb.BV(64, 0)
+			if hasZone {
+				shown = off
+			}
+			txt := in.noteUF(tb.UF("time.format", SortStr, wall, shown, lay))
+			if strings.HasPrefix(lay.S, "2006-01-02T15:04:05") && (strings.HasSuffix(lay.S, "Z07:00") || strings.HasSuffix(lay.S, "Z")) {
+				in.assertPC(tb.And(tb.UF("time.parse.ok", SortBool, txt),
+					tb.Eq(tb.UF("time.parse.unix", BVSort(64), txt), tb.BinBV("bvsub", wall, shown)),
+					tb.Eq(tb.UF("time.parse.offset", BVSort(64), txt), shown)))
+			}
+			return txt, true
 		}
 	})
 }
@@ -576,6 +608,7 @@ func init() {
 			mk := func(code *Term, digest Value) Value {
 				z := in.zero(rt).(Struct) // Code, Name, Length, Digest
 				z[0] = code
+				z[2] = in.lenOf(digest) // Decode guarantees Length == len(Digest)
 				z[3] = digest
 				p := new(Value)
 				*p = z
